@@ -280,6 +280,8 @@ impl<B> Flow<B, SendRequest> {
     pub fn write(&mut self, output: &mut [u8]) -> Result<usize, Error> {
         match &mut self.inner.call {
             CallHolder::WithoutBody(v) => v.write(output),
+            // Once the request is sent, an empty input would be a write that ends the body.
+            CallHolder::WithBody(v) if !v.is_prelude() => Ok(0),
             CallHolder::WithBody(v) => v.write(&[], output).map(|r| r.1),
             _ => unreachable!(),
         }
